@@ -15,6 +15,7 @@ writes those copies into coq/Gen/ on every run, so they can never drift from C01
    Proofs/AnsiSafeW.v  -> Gen/FileAnsiSafeW.v
    Proofs/EmuSafeW.v   -> Gen/FileEmuSafeW.v   (up to, not including, `Lemma init_W`: the initial states of the loaders are
                                                 in Model/FileLoad.v)
+   Proofs/MacroFuel.v  -> Gen/FileMacroFuel.v  (the nesting limit only cuts; a self-invoking macro reaches every limit)
 
 It also pins the source: the set of functions that read `is_terminal_buffer` must be exactly the set Model/FileCore.v
 models (a new reader of the flag is a new difference between terminal and file buffers)."""
@@ -34,8 +35,9 @@ IMPORT_MAP = {
     'Proofs.WeakInv': 'Proofs.FileInv',
     'Proofs.AnsiSafeW': 'Gen.FileAnsiSafeW',
     'Proofs.EmuSafeW': 'Gen.FileEmuSafeW',
+    'Proofs.MacroFuel': 'Gen.FileMacroFuel',
 }
-KEEP = {'Proofs.TermProofs', 'Lib.C17Lib', 'Model.Font', 'Model.Base64', 'Proofs.FontDcsSafe'}
+KEEP = {'Proofs.TermProofs', 'Lib.C17Lib', 'Model.Font', 'Model.Base64', 'Proofs.FontDcsSafe', 'Gen.MacroLimit'}
 
 # (source, target, must contain Model.TermCore in an import, cut marker or None)
 FILES = [
@@ -44,6 +46,7 @@ FILES = [
     ('Model/Petscii.v', 'FilePetscii.v', None),
     ('Proofs/AnsiSafeW.v', 'FileAnsiSafeW.v', None),
     ('Proofs/EmuSafeW.v', 'FileEmuSafeW.v', 'Lemma init_W'),
+    ('Proofs/MacroFuel.v', 'FileMacroFuel.v', None),
 ]
 
 # CSI S / CSI T: the clamp of the code (src/parsers/ansi/mod.rs: `let num = min(num, buf.max_effective_scrolls(current_layer));`)
@@ -77,7 +80,7 @@ def rewrite_imports(src, name):
     out, n = re.subn(r'(From IE Require(?: Import)?)((?:\s+[A-Za-z0-9_.]+)+)\s*\.', sentence, src)
     if n == 0 or 'Model.TermCore' not in seen:
         raise TranslateError('%s: no `From IE Require Import Model.TermCore ...` sentence found' % name)
-    if re.search(r'\b(TermCore|AnsiTok|Emu|Petscii|WeakInv|AnsiSafeW|EmuSafeW)\.[a-z_]', re.sub(r'\(\*.*?\*\)', '', out, flags=re.S)):
+    if re.search(r'\b(TermCore|AnsiTok|Emu|Petscii|WeakInv|AnsiSafeW|EmuSafeW|MacroFuel)\.[a-z_]', re.sub(r'\(\*.*?\*\)', '', out, flags=re.S)):
         raise TranslateError('%s: qualified reference to a terminal-buffer module' % name)
     return out
 
